@@ -218,6 +218,10 @@ func ChildMain(propID, tier string, seed uint64, idxFile, outFile string) int {
 			}
 		}
 		writeLine(out, childLine{E: &ii, R: r, P: pan})
+		if r != nil && r.Poisoned {
+			out.Sync()
+			os.Exit(0) // do not wait for anything: a goroutine of the case may never end
+		}
 	}
 	return 0
 }
